@@ -181,7 +181,7 @@ where
     });
     let make = || set(base(), case);
     let ops = vec![op(&make, "fit", |p| p.fit(&ds).map(|m| show(&m)).map_err(|e: SvmError| dbg(&e)), |p| p.fit(&ds).map(|m| show(&m)).map_err(|e: SvmError| dbg(&e)), |e| dbg(&e))];
-    judge(case, spec, &base, &set, Some(&|p| p.clone()), &|p| dbg(p), &|c| dbg(c), ops, out);
+    judge(case, spec, &base, &set, Some(&|p| p.clone()), &[], &|p| dbg(p), &|c| dbg(c), ops, out);
 }
 
 // ---------------- regression ----------------
@@ -257,7 +257,7 @@ macro_rules! regression_impl {
             });
             let make = || set(base(), case);
             let ops = vec![op(&make, "fit", |p| p.fit(&ds).map(|m| dbg(&m)).map_err(|e: SvmError| dbg(&e)), |p| p.fit(&ds).map(|m| dbg(&m)).map_err(|e: SvmError| dbg(&e)), |e| dbg(&e))];
-            judge(case, spec, &base, &set, Some(&|p| p.clone()), &|p| dbg(p), &|c| dbg(c), ops, out);
+            judge(case, spec, &base, &set, Some(&|p| p.clone()), &[], &|p| dbg(p), &|c| dbg(c), ops, out);
         }
     };
 }
